@@ -464,6 +464,7 @@ class WsgiApplication(HttpBase):
         except Exception as e:
             logger.exception(e)
             p_ctx.out_error = Fault('Server', get_fault_string_from_exception(e))
+            p_ctx.fire_event('method_exception_object')
             # the status was optimistically set to 200 above
             p_ctx.transport.resp_code = None
             return self.handle_error(p_ctx, others, p_ctx.out_error,
